@@ -5,5 +5,5 @@ P=$1; CH=$2; WT=${VW:-/tmp/vw}
 git -C $WT checkout -q --detach $(git -C /repo rev-parse HEAD) 2>/dev/null; git -C $WT checkout -- . ; git -C $WT clean -fdq
 if [[ $CH == revert:* ]]; then git -C /repo show ${CH#revert:} | git -C $WT apply -R || { echo "cannot revert"; exit 3; }
 else git -C $WT apply $CH || { echo "cannot apply"; exit 3; }; fi
-mkdir -p /tmp/vtest; cp /verif/known-findings.json /tmp/vtest/; VERIF_REPO=$WT VERIF_DIR=/tmp/vtest /verif/bin/verif check $P | grep -E "^  (FINDING|UNDECIDED)|KNOWN|BROKEN|violations=" | cut -c1-${COLS:-330}
+mkdir -p /tmp/vtest; cp /verif/known-findings.json /tmp/vtest/; VERIF_REPO=$WT VERIF_DIR=/tmp/vtest ${VERIF_BIN:-/verif/bin/verif} check $P | grep -E "^  (FINDING|UNDECIDED)|KNOWN|BROKEN|violations=" | cut -c1-${COLS:-330}
 git -C $WT checkout -- . ; git -C $WT clean -fdq
